@@ -254,11 +254,12 @@ Section Step.
 
   Lemma dirtyM_cases i :
     dirtyM i = true <->
-    (In (KIngress, i_full i) out /\ ~ In (i_full i) (b_del b)) \/ In (i_full i) (map i_full (b_add b)).
+    ((In (KIngress, i_full i) out \/ In (i_full i) (map i_full (b_upd b))) /\ ~ In (i_full i) (b_del b)) \/
+    In (i_full i) (map i_full (b_add b)).
   Proof.
     unfold dirtyM_of, merge_names.
-    rewrite namein_In, dedup_In, in_app_iff, filter_In, names_of_In, negb_true_iff.
-    pose proof (namein_false (i_full i) (b_del b)) as H. unfold namein in H. rewrite H. reflexivity.
+    rewrite namein_In, dedup_In, !in_app_iff, !filter_In, names_of_In, negb_true_iff.
+    pose proof (namein_false (i_full i) (b_del b)) as H. unfold namein in H. rewrite H. tauto.
   Qed.
 
   Lemma dirtyM_dirty i : dirtyM i = true -> dirty i = true.
@@ -313,14 +314,15 @@ Section Step.
     forall h, ~ In h (declared i).
   Proof.
     intros Hi Hd Hm h Hh.
-    assert (HnM : ~ ((In (KIngress, i_full i) out /\ ~ In (i_full i) (b_del b)) \/
+    assert (HnM : ~ (((In (KIngress, i_full i) out \/ In (i_full i) (map i_full (b_upd b))) /\
+                      ~ In (i_full i) (b_del b)) \/
                      In (i_full i) (map i_full (b_add b))))
       by (rewrite <- dirtyM_cases, Hm; discriminate).
     assert (Hna : ~ In (i_full i) (map i_full (b_add b))) by (intros Hc; apply HnM; right; exact Hc).
     assert (Hnd : ~ In (i_full i) (b_del b)).
     { intros Hc. apply Hna. apply (wf_readd _ _ _ Hok); [exact Hc|apply in_map; exact Hi]. }
     assert (Hno : ~ In (KIngress, i_full i) out).
-    { intros Hc. apply HnM. left. split; assumption. }
+    { intros Hc. apply HnM. left. split; [left; exact Hc|exact Hnd]. }
     apply Hno. apply (proj1 comp). apply (C_dirty i h Hd).
     destruct (new_cases i Hi) as [Hw|Hn].
     - apply T1_incl. apply Hlinks; assumption.
@@ -362,13 +364,15 @@ Section Step.
     destruct Hjm as [<-|[]]. apply pick_spec in E2 as [_ E2]. apply Hn. congruence.
   Qed.
 
-  Lemma ings_ok :
-    sort_ings (flat_map (fun n => opt_list (pick_ing w' b n)) (merge_names (names_of KIngress out) b))
-    = filter dirtyM ord'.
+  (* for any duplicate-free list of names: the picked objects, sorted, are the ingresses
+     of the new cluster with these names, in their order *)
+  Lemma ings_of_names names : NoDup names ->
+    sort_ings (flat_map (fun n => opt_list (pick_ing w' b n)) names)
+    = filter (fun i => namein (i_full i) names) ord'.
   Proof.
-    rewrite <- sort_filter by apply (wf_nodup' _ _ _ Hok).
+    intros Hnd. rewrite <- sort_filter by apply (wf_nodup' _ _ _ Hok).
     apply sort_ings_same_elements.
-    - apply picked_nodup. unfold merge_names. apply dedup_NoDup.
+    - apply picked_nodup. exact Hnd.
     - apply NoDup_map_filter. apply (wf_nodup' _ _ _ Hok).
     - intros x. rewrite in_flat_map, filter_In. split.
       + intros (n & Hn & Hx). destruct (pick_ing w' b n) as [i|] eqn:E; cbn in Hx; [|contradiction].
@@ -377,6 +381,11 @@ Section Step.
       + intros [Hi Hd]. exists (i_full x). split; [apply namein_In; exact Hd|].
         rewrite (proj2 (pick_spec (i_full x) x) (conj Hi eq_refl)). left. reflexivity.
   Qed.
+
+  Lemma ings_ok :
+    sort_ings (flat_map (fun n => opt_list (pick_ing w' b n)) (merge_names (names_of KIngress out) b))
+    = filter dirtyM ord'.
+  Proof. apply ings_of_names. unfold merge_names. apply dedup_NoDup. Qed.
 
   (* ---- (K): the clean sources are the same, in the same order ---- *)
   Lemma HK : filter (fun i => negb (dirty i)) ord = filter (fun i => negb (dirty i)) ord'.
@@ -598,7 +607,7 @@ Section Step.
       apply T1_sym. apply new_edge; assumption. }
     apply dirtyM_cases. destruct (string_in_dec (i_full i) (b_del b)) as [Hdel|Hdel].
     - right. apply (wf_readd _ _ _ Hok); [exact Hdel|apply in_map; exact Hi].
-    - left. split; assumption.
+    - left. split; [left; exact Hc|exact Hdel].
   Qed.
 
   Lemma declarers_clean h i :
